@@ -658,8 +658,11 @@ class Checker(metaclass=abc.ABCMeta):
             real_name, email_address = email.utils.parseaddr(report_msgid_bugs_to)
             del real_name
             if '@' not in email_address:
-                uri = urllib.parse.urlparse(report_msgid_bugs_to)
-                if uri.scheme == '':
+                try:
+                    scheme = urllib.parse.urlparse(report_msgid_bugs_to).scheme
+                except ValueError:
+                    scheme = ''
+                if scheme == '':
                     self.tag('invalid-report-msgid-bugs-to', report_msgid_bugs_to)
             elif domains.is_email_in_special_domain(email_address):
                 self.tag('invalid-report-msgid-bugs-to', report_msgid_bugs_to)
